@@ -88,7 +88,7 @@ def history(rng, timeout, length, placements=True):
             # handler error: the service ends the connection itself and must account for it
             i = rng.choice(sorted(s.open))
             s.open.discard(i)
-            ops += ["badcall %d" % i, "active"]
+            ops += ["%s %d" % (rng.choice(["badcall", "badcall", "badcall-keep"]), i), "active"]
         elif c == "close":
             i = rng.choice(sorted(s.open))
             s.open.discard(i)
@@ -102,6 +102,15 @@ def history(rng, timeout, length, placements=True):
             s.nconn += 1
         elif c == "active":
             ops += ["active"]
+    if s.serving and s.open and s.held is None and not s.gated and placements and rng.random() < 0.12:
+        # the serving context is cancelled while a client has stalled in the middle of a frame (right behind a complete call):
+        # every connection must end, accounted for, and the serving call returns after Shutdown
+        ops += ["stall %d" % rng.choice(sorted(s.open)), "ctxcancel", "active"]
+        s.open = set()
+        if not s.shutdown:
+            ops += ["shutdown"]
+        ops += ["wait-return", "active", "running", "closed", "listener-nil"]
+        return ops
     if s.serving:
         if not s.shutdown:
             ops += ["shutdown"]
@@ -152,7 +161,15 @@ def read_statement(ops, res):
                 return "op %d: connection %d arrived after Shutdown returned / after the timeout exit and was served" % (i, cid)
             if cid in open_ and cid not in late and r != "ok":
                 return "op %d: accepted connection %d was not served (%s)" % (i, cid, r)
-        elif f[0] == "badcall":
+        elif f[0] == "stall":
+            cid = int(f[1])
+            if cid in open_ and cid not in late and r != "ok":
+                return "op %d: accepted connection %d was not served (%s)" % (i, cid, r)
+        elif f[0] == "ctxcancel":
+            if r != "ended":
+                return "op %d: the serving context was cancelled but connections are still being held (%s): serving cannot drain" % (i, r)
+            open_ = set()
+        elif f[0] in ("badcall", "badcall-keep"):
             cid = int(f[1])
             if cid in open_ and cid not in late and r != "ended":
                 return "op %d: a frame that does not decode must end connection %d (%s)" % (i, cid, r)
